@@ -491,6 +491,8 @@ func checkC03(w *World, r *Report) {
 	ruleNoListenerNoOutput(w, r, "C03")
 	ruleCursorUp(w, r, "C03")
 	ruleFlushReturnsErrors(w, r, "C03")
+	ruleSyncArm(w, r, "C03")
+	ruleRowsFit(w, r, "C03")
 	ruleTriggerCancels(w, r, "C03")
 }
 
@@ -948,6 +950,7 @@ func checkC14(w *World, r *Report) {
 	}
 	r.Floor("C14.X-LISTENER", 2, "auto and manual refresh listeners")
 	ruleShutdownListeners(w, r, "C14")
+	ruleNoCallerAlias(w, r, "C14")
 	checkBarExit(w, r, "C14")
 	checkC11exit(w, r, "C14")
 	checkEndOnExit(w, r, "C14")
